@@ -410,6 +410,41 @@ func c20InsertBlocks(t *rapid.T, u *c20Universe, steps []c20Step) (uint32,
 	return start, out
 }
 
+// c20AliasTxIndex marks the short channel ids the gossiper is told to regard
+// as aliases in TestVerifC20Future (IsAlias is a callback; lnd proper uses
+// block heights from 16,000,000).
+const c20AliasTxIndex = 0xA11A5
+
+// c20AliasMsgs: what a remote peer must not get through with an alias scid. A
+// channel_announcement with four valid signatures whose scid is an alias (lnd
+// skips the funding validation for aliases, so only the "remote alias"
+// rejection stands between it and the graph), and an update for an alias
+// that maps to nothing.
+func c20AliasMsgs(t *rapid.T, u *c20Universe, c *c20Chan) []*c20Msg {
+	clone := *c
+	clone.scid = lnwire.ShortChannelID{
+		BlockHeight: c.scid.BlockHeight,
+		TxIndex:     c20AliasTxIndex,
+		TxPosition:  uint16(c.idx),
+	}
+	ca := u.makeCA(&clone, c20Features(), nil, c20Mainnet)
+	ca.why = "sem:remote_alias_scid_announcement"
+	f := c20DrawUpdFields(t, c.capacity, 0, u.baseTS+50,
+		fmt.Sprintf("alias%d", c.idx))
+	cu := c20MakeCU(clone.scid, f, c.nodePriv[0])
+	cu.why = "sem:remote_alias_scid_update"
+	out := []*c20Msg{ca, cu}
+	for _, m := range out {
+		if ok, why := m.fill(); !ok {
+			panic("c20: alias message does not parse: " + why)
+		}
+		m.authentic = false
+		m.ch = c.idx
+	}
+
+	return out
+}
+
 func c20FutureFP(u *c20Universe, start uint32, steps []c20Step) uint64 {
 	parts := []any{u.seed, start}
 	for _, s := range steps {
@@ -434,6 +469,16 @@ func TestVerifC20Future(t *testing.T) {
 		u := c20DrawUniverse(rt, 3, false, false)
 		dropped := make(map[string]int)
 		msgSteps := c20DrawHistory(rt, u, maxLen, dropped)
+		// (3) a few messages with alias scids from remote peers
+		nAlias := rapid.IntRange(0, 2).Draw(rt, "nAlias")
+		for i := 0; i < nAlias; i++ {
+			l := fmt.Sprintf("alias%d", i)
+			c := c20Sample(rt, u.chans, l+"c")
+			m := c20Sample(rt, c20AliasMsgs(rt, u, c), l+"m")
+			pos := rapid.IntRange(0, len(msgSteps)).Draw(rt, l+"pos")
+			msgSteps = append(msgSteps[:pos], append([]c20Step{
+				{msg: m, peer: -1}}, msgSteps[pos:]...)...)
+		}
 		start, steps := c20InsertBlocks(rt, u, msgSteps)
 		realGraph := rapid.IntRange(0, 3).Draw(rt, "realGraph") == 0
 
@@ -446,7 +491,11 @@ func TestVerifC20Future(t *testing.T) {
 			}
 			gv = rg
 		}
-		ctx, err := c20NewCtx(t, wps, u.chain, start, gv)
+		ctx, err := c20NewCtxOpts(t, wps, u.chain, start, gv, c20CtxOpts{
+			isAlias: func(scid lnwire.ShortChannelID) bool {
+				return scid.TxIndex == c20AliasTxIndex
+			},
+		})
 		if err != nil {
 			rt.Fatalf("harness: gossiper start: %v", err)
 		}
@@ -467,6 +516,10 @@ func TestVerifC20Future(t *testing.T) {
 				cls = cls[:i]
 			}
 			classes["sent_"+cls]++
+			if strings.Contains(it.msg.why, "alias_scid") {
+				run.label("sent_" + strings.TrimPrefix(it.msg.why,
+					"sem:"))
+			}
 		}
 
 		if !(run.exec(steps) && run.finish()) {
@@ -485,6 +538,9 @@ func TestVerifC20Future(t *testing.T) {
 		nontrivial := lb["block_releases_kept_messages"] > 0
 		labels := make([]string, 0, len(lb)+2)
 		for _, k := range c20LabelList(lb) {
+			labels = append(labels, "fut:"+k)
+		}
+		for k := range classes {
 			labels = append(labels, "fut:"+k)
 		}
 		if realGraph {
